@@ -239,6 +239,9 @@ def _store_array(
             chunks=source.chunksize,
             path=path,
         )
+        # this lazy array is bound to the caller's target: storing the result of
+        # this store somewhere else later must copy it, not re-target it
+        target._retargeted = True
     identity = lambda a: a
     blockwise_kwargs = blockwise_kwargs or {}
     if region is None or all(r == slice(None) for r in region):
